@@ -609,9 +609,8 @@ impl Field for Fp {
         CtOption::new(out, Choice::from(is_quad_res as u8))
     }
 
-    fn sqrt_ratio(_num: &Self, _div: &Self) -> (Choice, Self) {
-        // ff::helpers::sqrt_ratio_generic(num, div)
-        unimplemented!()
+    fn sqrt_ratio(num: &Self, div: &Self) -> (Choice, Self) {
+        ff::helpers::sqrt_ratio_generic(num, div)
     }
 }
 
@@ -834,13 +833,39 @@ impl PrimeField for Fp {
     const CAPACITY: u32 = Self::NUM_BITS - 1;
     const TWO_INV: Self = TWO_INV;
     const MULTIPLICATIVE_GENERATOR: Self = GENERATOR;
-    const S: u32 = 0;
+    // p = 3 mod 4, hence p - 1 = 2^1 * t with t odd.
+    const S: u32 = 1;
 
-    // These constants are not needed for the base field.
-    const ROOT_OF_UNITY: Self = Fp::ONE;
-    const ROOT_OF_UNITY_INV: Self = Fp::ONE;
-    const DELTA: Self = Fp::ZERO;
+    // The 2^S-th root of unity GENERATOR^t = -1 (its own inverse).
+    const ROOT_OF_UNITY: Self = MINUS_ONE;
+    const ROOT_OF_UNITY_INV: Self = MINUS_ONE;
+    // GENERATOR^(2^S) = 4.
+    const DELTA: Self = FOUR;
 }
+
+/// -1 in Montgomery form.
+const MINUS_ONE: Fp = Fp(blst_fp {
+    l: [
+        0x43f5_ffff_fffc_aaae,
+        0x32b7_fff2_ed47_fffd,
+        0x07e8_3a49_a2e9_9d69,
+        0xeca8_f331_8332_bb7a,
+        0xef14_8d1e_a0f4_c069,
+        0x040a_b326_3eff_0206,
+    ],
+});
+
+/// 4 in Montgomery form.
+const FOUR: Fp = Fp(blst_fp {
+    l: [
+        0xaa27_0000_000c_fff3,
+        0x53cc_0032_fc34_000a,
+        0x478f_e97a_6b0a_807f,
+        0xb1d3_7ebe_e6ba_24d7,
+        0x8ec9_733b_bf78_ab2f,
+        0x09d6_4551_3d83_de7e,
+    ],
+});
 
 impl PrimeFieldBits for Fp {
     #[cfg(target_pointer_width = "64")]
